@@ -124,8 +124,27 @@ theorem stepStack_open (s s' : FStack) (p : Path) (name : Nat) (node : Tree) (hn
   cases hn'
   simp only [renderXmlWith] at hr
   split at hr
-  · simp only [Outcome.ok.injEq, Prod.mk.injEq] at hr; exact hr.1.symm
   · cases hr
+  · split at hr
+    · simp only [Outcome.ok.injEq, Prod.mk.injEq] at hr; exact hr.1.symm
+    · cases hr
+
+/-- A `StartTagOpen` that is rendered: the element is not a no-namespace element inside the scope
+    of a default namespace (`has_default_namespace` after pushing its own declarations). -/
+theorem stepStack_open_noDefault (s s' : FStack) (p : Path) (name : Nat) (node : Tree)
+    (hn : t.at? p = some node)
+    (h : stepStack esc env pr t s (p, .startTagOpen name) = some s') :
+    ¬ (env.nsOfName name = Env.noNamespace ∧ (s.push node.nsDecls).hasDefaultNamespace = true) := by
+  obtain ⟨node', tok, hn', hr⟩ := stepStack_some esc env pr t s s' p _ h
+  rw [hn] at hn'
+  cases hn'
+  simp only [renderXmlWith] at hr
+  split at hr
+  · cases hr
+  · rename_i hc
+    intro hh
+    apply hc
+    simp [hh.1, hh.2]
 
 theorem stepStack_end (s s' : FStack) (p : Path) (name : Nat) (node : Tree) (hn : t.at? p = some node)
     (h : stepStack esc env pr t s (p, .endTag name) = some s') : s' = s.pop node.hasNsDecls := by
